@@ -85,23 +85,31 @@ func (c *Config) Merge(from interface{}, options ...Option) error {
 		// settings report the source of the first value merged into it
 		c.metadata = opts.meta
 	}
+	return mergeInto(opts, c, other)
+}
+
+// mergeInto merges from into to, the top-level of a merge operation.
+func mergeInto(opts *options, to, from *Config) Error {
 	opts.mergeTargets = map[*cfgDynamic]*Config{}
-	resolveMergeTargets(opts, c, other)
-	return mergeConfig(opts, c, other)
+	resolveMergeTargets(opts, to, from, nil)
+	return mergeConfig(opts, to, from)
 }
 
 // resolveMergeTargets evaluates the references stored in to that meet an
 // object or list of from, before the merge modifies anything. The merge
 // continues with private copies of the values found (see mergeValues): the
 // settings referenced are not modified, and what a reference yields does not
-// depend on the order the settings get merged in.
-func resolveMergeTargets(opts *options, to, from *Config) {
+// depend on the order the settings get merged in. expanding holds the values
+// of the references followed to get to 'to': a reference to a setting it is a
+// part of itself can not be unfolded, the new value replaces it.
+func resolveMergeTargets(opts *options, to, from *Config, expanding []*Config) {
 	if to.fields == nil || from.fields == nil {
 		return
 	}
 
 	visit := func(old, v value) {
 		var subOld *Config
+		expanding := expanding
 		switch o := old.(type) {
 		case cfgSub:
 			subOld = o.c
@@ -113,13 +121,19 @@ func resolveMergeTargets(opts *options, to, from *Config) {
 			if err != nil {
 				return
 			}
+			for _, active := range expanding {
+				if active == ref {
+					return
+				}
+			}
+			expanding = append(expanding, ref)
 			subOld = cfgSub{ref}.cpy(o.Context()).(cfgSub).c
 			opts.mergeTargets[o] = subOld
 		default:
 			return
 		}
 		if subV, err := v.toConfig(opts); err == nil {
-			resolveMergeTargets(opts, subOld, subV)
+			resolveMergeTargets(opts, subOld, subV, expanding)
 		}
 	}
 
@@ -306,14 +320,10 @@ func mergeValues(opts *options, old, v value) (value, Error) {
 	}
 	var subOld *Config
 	if d, dynamic := old.(*cfgDynamic); dynamic {
-		// never merge into the value of a reference itself: it is a setting
-		// of its own (or shared with other users of the reference)
+		// never merge into the value of a reference itself (it is a setting
+		// of its own) but into the copy made by resolveMergeTargets
 		if subOld = opts.mergeTargets[d]; subOld == nil {
-			ref, err := d.toConfig(opts)
-			if err != nil {
-				return v, nil
-			}
-			subOld = cfgSub{ref}.cpy(d.Context()).(cfgSub).c
+			return v, nil
 		}
 	} else if subOld, err = old.toConfig(opts); err != nil {
 		return v, nil
